@@ -49,7 +49,8 @@ def configs(tier, seed):
     for nc, nw, scales, norm in [(1, 1, False, True), (1, 2, True, True), (2, 2, True, False), (2, 1, False, True)] + \
             ([(3, 3, True, True), (1, 3, True, False)] if big else []):
         out.append({"name": f"closed-c{nc}-w{nw}-{'s' if scales else 'nos'}-{'norm' if norm else 'raw'}", "kind": "closed",
-                    "nc": nc, "nw": nw, "scales": scales, "normalize": norm, "nr": 2 if big else 1, "nt": 2 if big else 1})
+                    "nc": nc, "nw": nw, "scales": scales, "normalize": norm, "nr": 2 if big else 1,
+                    "nt": 2 if big and max(nc, nw) < 3 else 1})
     out.append({"name": "closed-backsweep", "kind": "closed", "nc": 1, "nw": 1, "scales": False, "normalize": False, "nr": 1,
                 "nt": 1, "backsweep": True})
     for shift in (False, True):
@@ -156,6 +157,7 @@ def _run_closed(cfg, rec):
     def fn(ctx):
         with Patcher() as p, warnings.catch_warnings():
             warnings.simplefilter("ignore")
+            ctx.lazy_axioms = True  # the kernels fork on arguments (beta - alpha < -1) only, never on a function value
             _install(p, ctx)
             if not rec.shims:
                 rec.shims += p.record
@@ -236,6 +238,7 @@ def _run_plumbing(cfg, rec):
     def fn(ctx):
         with Patcher() as p, warnings.catch_warnings():
             warnings.simplefilter("ignore")
+            ctx.lazy_axioms = True  # see _run_closed
             on_index = _install(p, ctx)
             if not rec.shims:
                 rec.shims += p.record
